@@ -991,7 +991,18 @@ def draw_program(draw, cfg=None):
         p = b.grow(b.heads[0], g.pick([1, 1, 2, 3]), wander=0)
         a = b.grow(p, g.pick([0, 1, 1, 2]), weights={"extend": 5, "select_rows": 3, "window": 2, "ordered_window": 1}, wander=0)
         c = b.grow(p, g.pick([0, 1, 1, 2]), weights={"extend": 5, "select_rows": 3, "window": 2, "project": 1}, wander=0)
-        if cfg.get("narrowing_tails") and g.boolean(0.6):
+        cr_twin = None
+        if b.weights.get("convert_records", 0) > 0 and "convert_records" not in g.closed and g.boolean(cfg.get("cr_twin_prob", 0.15)):
+            # two DIFFERENT record conversions of one node that ask it for the same columns
+            for base in (p, b.heads[0]):
+                a2 = b.step(base, "convert_records")
+                t2 = b.twin(a2) if a2 is not None else None
+                if t2 is not None:
+                    cr_twin = (a2, t2)
+                    break
+        if cr_twin is not None:
+            a, c = cr_twin
+        elif cfg.get("narrowing_tails") and g.boolean(0.6):
             # both consumers ask the shared node for different column subsets
             if g.boolean(0.6):
                 # complementary requests: each branch computes something from P and keeps only P's key + what it
@@ -1023,7 +1034,11 @@ def draw_program(draw, cfg=None):
             tw = {"order_rows": 4, "extend": 3, "ordered_window": 2, "select_rows": 2, "window": 1}
             if b.weights.get("convert_records", 0) > 0 and "convert_records" not in g.closed:
                 tw["convert_records"] = 3
-            a2 = b.grow(p, 1, weights=tw, wander=0)
+            a2 = None
+            if "convert_records" in tw and g.boolean(0.35):
+                a2 = b.step(p, "convert_records")
+            if a2 is None:
+                a2 = b.grow(p, 1, weights=tw, wander=0)
             t = b.twin(a2) if a2 != p else None
             if t is not None:
                 a, c = a2, t
